@@ -28,26 +28,27 @@ def hash_groups():
                        covers=['end'] + (['abort'] if n else [])))
     g('hash.rehash_n', ['C19', 'C03'], 'h_rehash_n', '__cstl_hash_rehash', replace=['cstl_clean_bucket'],
       what='sweep: <= n dirty buckets cleaned, progress >= n or completion, completion installs the pending geometry, sweep invariant',
-      shards=8)
+      shards=3, weight=4)
     g('hash.rehash', ['C19', 'C03'], 'h_rehash', 'cstl_hash_rehash', replace=['__cstl_hash_rehash'],
       what='forced completion of a pending rehash; no-op otherwise')
     g('hash.get_bucket', ['C19', 'C03', 'C17'], 'h_get_bucket', 'cstl_hash_get_bucket',
       replace=['__cstl_hash_get_bucket', 'cstl_clean_bucket', '__cstl_hash_rehash'],
       what='keyed access: <= 3 dirty buckets relocated, sweep advances or completes, one hash consultation when idle, bucket in range')
     g('hash.set_capacity', ['C16', 'C03'], 'h_set_capacity', '__cstl_hash_set_capacity',
-      what='bucket array reallocation lands completely or changes nothing (allocation may fail)', shards=4)
+      what='bucket array reallocation lands completely or changes nothing (allocation may fail)')
     g('hash.set_capacity_init', ['C16'], 'h_set_capacity', '__cstl_hash_set_capacity',
       what='first allocation of the bucket array lands completely or changes nothing')
-    g('hash.resize', ['C19', 'C16', 'C03'], 'h_resize', 'cstl_hash_resize',
-      replace=['cstl_hash_rehash'],
-      what='resize request in every table state incl. rehash pending: lands (effective geometry = request) or, on allocation failure, changes nothing',
-      shards=8)
+    for case, txt in ((1, 'request fits the current capacity'), (2, 'request needs a bigger bucket array')):
+        G.append(Group('hash.resize.case%d' % case, ['C19', 'C16', 'C03'], 'P', S, 'h_resize', enforce='cstl_hash_resize',
+                       replace=['cstl_hash_rehash'], sources=src, defines=['-DVF_G_resize', '-DVF_RESIZE_CASE=%d' % case],
+                       replay=True, timeout=1500, weight=5,
+                       what='resize request in every table state incl. rehash pending (%s; the two cases are exhaustive): lands (effective geometry = request) or, on allocation failure, changes nothing' % txt))
     g('hash.resize_init', ['C19', 'C16', 'C03'], 'h_resize', 'cstl_hash_resize',
       replace=['cstl_hash_rehash'],
       what='first resize of a freshly initialised table')
     g('hash.shrink', ['C16', 'C03'], 'h_shrink', 'cstl_hash_shrink_to_fit',
       replace=['cstl_hash_rehash'],
-      what='shrink_to_fit keeps the effective geometry, array size follows or nothing changes', shards=4)
+      what='shrink_to_fit keeps the effective geometry, array size follows or nothing changes')
     g('hash.foreach_walk', ['C04'], 'h_foreach_walk', '__cstl_hash_foreach', replace=['cstl_hash_bucket_foreach'],
       what='bucket walk hands bucket k to the k-th chain walk for every bucket that can hold an element, stops at first non-zero')
     g('hash.foreach', ['C04'], 'h_foreach', 'cstl_hash_foreach', replace=['cstl_hash_rehash', '__cstl_hash_foreach'],
@@ -79,15 +80,15 @@ def vector_groups():
                                tier=kw.pop('tier', tier), replay=True, **kw))
             g('set_capacity', ['C09', 'C16'], 'h_set_capacity', 'cstl_vector_set_capacity',
               'reallocation lands completely (live buffer of >= (cap+1)*size bytes in 128-bit arithmetic, bytes in range kept) or changes nothing',
-              shards=1 if fam else 4)
+              shards=1)
             g('reserve', ['C09', 'C16'], 'h_reserve', 'cstl_vector_reserve',
-              'reserve: never shrinks, quiet no-op when growth is impossible, wf kept', shards=1 if fam else 4)
+              'reserve: never shrinks, quiet no-op when growth is impossible, wf kept')
             g('resize', ['C09', 'C16'], 'h_resize', 'cstl_vector_resize',
               'resize: size == request or abort; ctor once per entering element ascending, dtor once per leaving element descending',
-              covers=['end', 'abort'], shards=1 if fam else 6)
+              covers=['end', 'abort'])
             if not fam:
                 g('shrink', ['C09', 'C16'], 'h_shrink', 'cstl_vector_shrink_to_fit',
-                  'shrink_to_fit: cap == count or unchanged, wf kept', shards=4)
+                  'shrink_to_fit: cap == count or unchanged, wf kept')
                 g('at', ['C09'], 'h_at', 'cstl_vector_at_const',
                   'at: aborts iff i >= size, else address of element i inside the allocation', covers=['end', 'abort'])
                 g('clear', ['C09', 'C15'], 'h_clear', 'cstl_vector_clear',
@@ -172,10 +173,37 @@ def array_groups():
     return G
 
 
+def string_groups():
+    S = 'spec/s_string.c'
+    src = [('vector.c', {'loops': 'spec/loops/vector.lc'}), '_string.c', 'string.c']
+    G = []
+    for w, wd in (('narrow', '-DVF_S_NARROW'), ('wide', '-DVF_S_WIDE')):
+        for fam in ('', 'empty'):
+            d = [wd] + (['-DVF_S_EMPTY'] if fam else [])
+            sfx = '.' + w + ('.empty' if fam else '')
+
+            def g(name, props, harness, enforce, what, **kw):
+                G.append(Group('string.' + name + sfx, props, 'P', S, harness, enforce=enforce, sources=src, defines=d,
+                               what=what + ' [%s, %s]' % (w, 'empty string' if fam else 'string with storage'), **kw))
+            g('resize0', ['C10', 'C16'], 'h_resize0', 'cstl_%sstring___resize' % ('w' if w == 'wide' else ''),
+              '__resize: exactly n characters + NUL, prefix kept, abort when storage for n+1 characters cannot be had', covers=['end', 'abort'])
+            g('prep_insert', ['C10', 'C16'], 'h_prep_insert', 'cstl_%sstring_prep_insert' % ('w' if w == 'wide' else ''),
+              'prep_insert: abort iff pos > size; size grows by len (or abort), prefix kept, memmove ranges inside the storage', covers=['end', 'abort'])
+            g('at', ['C10'], 'h_at', 'cstl_%sstring_at' % ('w' if w == 'wide' else ''), 'at: abort iff index >= size', covers=['abort'] if fam else ['end', 'abort'])
+            g('str', ['C10'], 'h_str', 'cstl_%sstring_str' % ('w' if w == 'wide' else ''), 'str: size characters followed by NUL')
+            if not fam:
+                g('substr_prep', ['C10'], 'h_substr_prep', 'cstl_%sstring_substr_prep' % ('w' if w == 'wide' else ''),
+                  'substr_prep: abort iff pos >= size; count truncated to the characters available for every count', covers=['end', 'abort'])
+                g('erase', ['C10'], 'h_erase', 'cstl_%sstring_erase' % ('w' if w == 'wide' else ''),
+                  'erase: size shrinks by min(len, size-idx), prefix kept, memmove ranges inside the storage, NUL-terminated', covers=['end', 'abort'])
+    return G
+
+
 def all_groups():
     G = []
     G += hash_groups()
     G += vector_groups()
     G += memory_groups()
     G += array_groups()
+    G += string_groups()
     return G
